@@ -14,7 +14,7 @@ import (
 
 func init() {
 	register("C08", propMeta{
-		Explanation: "E-GUARD + E-CONST + E-PANIC. O-1 stripping dominates every export: the description serialised in BrokerChannel.Negotiate and SignalingServer.sendAnswer is, on every path not behind the true edge of the respective keepLocalAddresses flag, a fresh description whose SDP is util.StripLocalAddresses of the original; probetest strips unconditionally; the flag fields are written only from the configuration. O-2 range table = RFC table: util.IsLocal is read as a disjunction of conjunctions of byte tests (b[k] == c, b[k] & m == c) over ip.To4() and the 16-byte ip; each true path is converted syntactically to a CIDR prefix and the resulting set is compared with {10/8, 172.16/12, 192.168/16, 100.64/10, 169.254/16, fc00::/7}. O-3 filter shape: in the candidate loop of StripLocalAddresses the skip is reachable only through IsICECandidate, a successful UnmarshalCandidate, Type() == host, ParseIP != nil and one of IsLocal/IsUnspecified/IsLoopback (all three occur); every other path appends the loop's attribute; each media section gets a slice made inside its own iteration; parse/marshal errors return the input unchanged. O-4 no termination construct reachable from StripLocalAddresses/IsLocal, and every constant index into an address is behind an edge that establishes its length (To4() != nil, len(ip) == 16). O-2 is evaluated exactly since the second seeding round: byte tests including < and <= ranges become value sets, each feasible true path a product of per-byte sets, and the union is compared with the table over all 65536 leading IPv4 byte pairs and 256 leading IPv6 bytes. Added after the third seeding round: ice.UnmarshalCandidate receives the attribute value itself (no trimming or re-formatting); the caller's string is returned only on error edges, never as a 'nothing removed' shortcut decided per media section. Added after the fifth seeding round: IsLocal consulting a library predicate whose range reaches beyond the table (IsLinkLocalUnicast: fe80::/10, multicast, global unicast) is a violation. Added after the sixth seeding round and the mutation audit: the raw description may arrive only over the keep edge itself (the other branch of the same test no longer counts: an inverted flag test was accepted before); the keepLocalAddresses fields are fed from the KeepLocalAddresses option or a constant at every call site; a StripLocalAddresses without an append of kept attributes is a violation.",
+		Explanation: "E-GUARD + E-CONST + E-PANIC. O-1 stripping dominates every export: the description serialised in BrokerChannel.Negotiate and SignalingServer.sendAnswer is, on every path not behind the true edge of the respective keepLocalAddresses flag, a fresh description whose SDP is util.StripLocalAddresses of the original; probetest strips unconditionally; the flag fields are written only from the configuration. O-2 range table = RFC table: util.IsLocal is read as a disjunction of conjunctions of byte tests (b[k] == c, b[k] & m == c) over ip.To4() and the 16-byte ip; each true path is converted syntactically to a CIDR prefix and the resulting set is compared with {10/8, 172.16/12, 192.168/16, 100.64/10, 169.254/16, fc00::/7}. O-3 filter shape: in the candidate loop of StripLocalAddresses the skip is reachable only through IsICECandidate, a successful UnmarshalCandidate, Type() == host, ParseIP != nil and one of IsLocal/IsUnspecified/IsLoopback (all three occur); every other path appends the loop's attribute; each media section gets a slice made inside its own iteration; parse/marshal errors return the input unchanged. O-4 no termination construct reachable from StripLocalAddresses/IsLocal, and every constant index into an address is behind an edge that establishes its length (To4() != nil, len(ip) == 16). O-2 is evaluated exactly since the second seeding round: byte tests including < and <= ranges become value sets, each feasible true path a product of per-byte sets, and the union is compared with the table over all 65536 leading IPv4 byte pairs and 256 leading IPv6 bytes. Added after the third seeding round: ice.UnmarshalCandidate receives the attribute value itself (no trimming or re-formatting); the caller's string is returned only on error edges, never as a 'nothing removed' shortcut decided per media section. Added after the fifth seeding round: IsLocal consulting a library predicate whose range reaches beyond the table (IsLinkLocalUnicast: fe80::/10, multicast, global unicast) is a violation. Added after the sixth seeding round and the mutation audit: the raw description may arrive only over the keep edge itself (the other branch of the same test no longer counts: an inverted flag test was accepted before); the keepLocalAddresses fields are fed from the KeepLocalAddresses option or a constant at every call site; a StripLocalAddresses without an append of kept attributes is a violation. Added after the seventh seeding round: O-2 also reads the table form of IsLocal - CIDR string constants parsed by net.ParseCIDR and a loop over (*net.IPNet).Contains(ip) - and compares the union of the blocks with the RFC table over the same leading-byte classes.",
 		NotDecided:  "pion/sdp and pion/ice parsing and re-marshalling fidelity ('every other field preserved') - third-party; IPv4-mapped spellings (handled by To4, stdlib).",
 		Assumptions: []string{"net.IP.To4 returns nil or a 4-byte slice", "third-party SDP/ICE code does not panic"},
 	}, runC08)
